@@ -1,67 +1,217 @@
-// C02 — Map / Dic / HashMap / HashDic / Set as finite maps and sets: explicit-state BFS over operation
-// histories on the real containers against std::map / std::set.
+// C02 — Map / Dic / HashMap / HashDic / Set as finite maps and sets.
+//  (1) explicit-state BFS over operation histories on the real containers against std::map / std::set
+//      (labels map<int>, dic, hashmap<int>, hashdic, set, map9),
+//  (2) flat exhaustive families for the entry points that are not BFS operations:
+//      build (constructors / initializer lists / shorthand initialisers), sizes (table-size arguments),
+//      grow (every insertion order of 8-9 colliding keys through two table growths).
 #include <asl/Map.h>
 #include <asl/HashMap.h>
 #include <asl/Set.h>
 #include <asl/String.h>
 #include <map>
 #include <set>
+#include <climits>
 #include "vf.h"
 #include "aslx.h"
 using namespace asl;
 using vf::fmt;
 
-static int W_REHASH, W_RM_HEAD, W_RM_MID, W_RM_TAIL, W_RM_ABSENT, W_EQ_DIFF_ORDER, W_EQ_DIFF_SIZE, W_COLLIDE, W_MAP_BRANCH[6], W_AUTOINSERT, W_OVERWRITE;
+typedef std::map<std::string, int> Ref; // reference map: printable key -> value number
+
+static std::string ks(int k) { char b[16]; snprintf(b, sizeof b, "%d", k); return b; } // (vf::fmt clears a 4 KB buffer per call)
+static std::string ks(const String& k) { return vfx::S(k); }
 
 // ---- key traits
 template <class K> struct KT;
 template <> struct KT<int> {
+	// hash keys: 1, -255, 257 are congruent modulo 256 (and modulo every smaller table size); negative and extreme values included
 	static int nkeys() { return 5; }
-	static int key(int i) { static const int k[] = { 1, 2, 3, 257, 513 }; return k[i]; }
-	static int okey(int i) { return i + 1; } // ordered-map keys 1..5
-	static std::string str(int k) { return fmt("%d", k); }
-	static const char* name() { return "int"; }
+	static int key(int i) { static const int k[] = { 1, -255, 3, 257, INT_MIN }; return k[i]; }
+	// ordered-map keys: both extremes, so that a comparison by subtraction overflows
+	static int nokeys() { return 5; }
+	static int okey(int i) { static const int k[] = { INT_MIN, -1, 0, 1, INT_MAX }; return k[i]; }
+	static int fillkey(int i) { return 1000 + i; }
+	static bool negHash(int k) { return k < 0; }
 };
 template <> struct KT<String> {
-	static int nkeys() { return 5; }
-	// "Ab" and "BA" have equal hash (33*'A'+'b' == 33*'B'+'A'); the long ones share a 20-char prefix
-	static String key(int i) { static const char* k[] = { "Ab", "BA", "common-prefix-0123456-x", "common-prefix-0123456-y", "" }; return k[i]; }
-	static String okey(int i) { static const char* k[] = { "common-prefix-0123456-b", "common-prefix-0123456-a", "common-prefix-0123456", "common-prefix-0123456-ab", "d" }; return k[i]; }
-	static std::string str(const String& k) { return vfx::S(k); }
-	static const char* name() { return "String"; }
+	// "Ab" and "BA" have equal hash (33*'A'+'b' == 33*'B'+'A' == 2243); "\xc3" has hash -61, which is a different value in
+	// the same bucket of every table of up to 256 bins (2243 & 255 == -61 & 255 == 195); the long ones share a 20-char prefix
+	static int nkeys() { return 6; }
+	static String key(int i) { static const char* k[] = { "Ab", "BA", "common-prefix-0123456-x", "common-prefix-0123456-y", "", "\xc3" }; return k[i]; }
+	static int nokeys() { return 5; }
+	static String okey(int i) { static const char* k[] = { "common-prefix-0123456-b", "common-prefix-0123456-a", "common-prefix-0123456", "common-prefix-0123456-ab", "\xe9t\xe9" }; return k[i]; }
+	static String fillkey(int i) { return String(fmt("k%d", 1000 + i).c_str()); }
+	static bool negHash(const String& k) { return asl::hash(k) < 0; }
 };
-static std::string ks(int k) { return fmt("%d", k); }
-static std::string ks(const String& k) { return vfx::S(k); }
 
-// =============================================================== ordered Map
-template <class K>
+// ---- value traits: value number n (0 = default constructed) <-> value of type V
+template <class V> struct VT;
+template <> struct VT<int> {
+	static void init() {}
+	static int val(int n) { return n; }
+	static int num(int v) { return v; }
+};
+template <> struct VT<String> {
+	enum { N = 12 };
+	static String* tab() { static String t[N]; return t; }
+	static void init() { for (int i = 1; i < N; i++) tab()[i] = String(fmt("value-%02d-0123456789-0123456789-x", i).c_str()); } // heap-represented
+	static const String& val(int n) { return tab()[n]; }
+	static int num(const String& v) { for (int i = 0; i < N; i++) if (v == tab()[i]) return i; return 99; }
+};
+
+static bool nativeLess(int a, int b) { return a < b; }
+static bool nativeLess(const String& a, const String& b) { return ks(a) < ks(b); } // std::string: unsigned byte order, as strcmp (keys have no embedded NUL)
+static bool sameKey(int a, int b) { return a == b; }
+static bool sameKey(const String& a, const String& b) { return a.length() == b.length() && memcmp(*a, *b, (size_t)a.length()) == 0; }
+template <class K> struct KeyList {
+	std::vector<K> k; std::vector<std::string> s;
+	std::vector<int> rank; // key numbers in ascending key order (computed with std::sort on the native values, not with asl)
+	void add(const K& x) {
+		k.push_back(x); s.push_back(ks(x));
+		rank.clear(); for (int i = 0; i < n(); i++) rank.push_back(i);
+		const std::vector<K>& kk = k;
+		std::sort(rank.begin(), rank.end(), [&kk](int a, int b) { return nativeLess(kk[a], kk[b]); });
+	}
+	int n() const { return (int)k.size(); }
+};
+
+
+// =============================================================== observation of ONE container against the reference
+// ordered map (Map / Dic): lookups, length, every enumeration API, ascending order
+template <class K, class V, class C>
+static bool checkMap(C& J, const Ref& M, const KeyList<K>& keys, const char* nm, std::string& err) {
+	const C& I = J;
+	if (I.length() != (int)M.size()) { err = fmt("%s.length() = %d, reference %d", nm, I.length(), (int)M.size()); return false; }
+	for (int k = 0; k < keys.n(); k++) {
+		Ref::const_iterator it = M.find(keys.s[k]);
+		bool e = it != M.end();
+		if (I.has(keys.k[k]) != e) { err = fmt("%s.has(%s) = %d, reference %d", nm, keys.s[k].c_str(), (int)I.has(keys.k[k]), (int)e); return false; }
+		const V* p = I.find(keys.k[k]);
+		if ((p != 0) != e || (p && *p != VT<V>::val(it->second))) { err = fmt("%s.find(%s)", nm, keys.s[k].c_str()); return false; }
+		V* q = J.find(keys.k[k]); // non-const overload
+		if ((q != 0) != e || (q && *q != VT<V>::val(it->second))) { err = fmt("non-const %s.find(%s)", nm, keys.s[k].c_str()); return false; }
+		if (I.get(keys.k[k], VT<V>::val(7)) != VT<V>::val(e ? it->second : 7)) { err = fmt("%s.get(%s)", nm, keys.s[k].c_str()); return false; }
+		if (I[keys.k[k]] != VT<V>::val(e ? it->second : 0)) { err = fmt("const %s[%s]", nm, keys.s[k].c_str()); return false; }
+	}
+	// enumeration: every entry exactly once, ascending key order. Expected sequence = the listed keys, in rank order, that the reference holds
+	int ek[64], ev[64], ne = 0;
+	for (int r = 0; r < keys.n(); r++) { Ref::const_iterator it = M.find(keys.s[keys.rank[r]]); if (it != M.end()) { ek[ne] = keys.rank[r]; ev[ne] = it->second; ne++; } }
+	if (ne != (int)M.size()) { err = "harness: reference holds a key outside the key list"; return false; }
+	int i = 0; bool bad = false;
+	for (typename C::Enumerator e = I.all(); e; ++e, ++i) { if (i >= ne || !sameKey(~e, keys.k[ek[i]]) || *e != VT<V>::val(ev[i])) { bad = true; break; } }
+	if (bad || i != ne) { err = fmt("%s enumeration (all()) differs from the ascending reference at position %d (reference has %d entries)", nm, i, ne); return false; }
+	i = 0;
+	for (auto& e : I) { if (i >= ne || !sameKey(e.key, keys.k[ek[i]]) || e.value != VT<V>::val(ev[i])) { bad = true; break; } ++i; } // C++11 begin()/end()
+	if (bad || i != ne) { err = fmt("%s range-for enumeration differs from the ascending reference at position %d (reference has %d entries)", nm, i, ne); return false; }
+	Array<K> kk = I.keys();
+	if (kk.length() != ne) { err = fmt("%s.keys() length", nm); return false; }
+	for (i = 0; i < ne; i++) if (!sameKey(kk[i], keys.k[ek[i]])) { err = fmt("%s.keys() order", nm); return false; }
+	return true;
+}
+
+static std::vector<const int*>& scratchPtrs() { static std::vector<const int*> v; if (v.capacity() == 0) v.reserve(4096); return v; }
+static std::vector<int>& scratchInts() { static std::vector<int> v; if (v.capacity() == 0) v.reserve(4096); return v; }
+// hash map (HashMap / HashDic)
+template <class K, class V, class C>
+static bool checkHash(C& J, const Ref& M, const KeyList<K>& keys, const char* nm, std::string& err) {
+	const C& I = J;
+	if (I.length() != (int)M.size()) { err = fmt("%s.length() = %d, reference %d", nm, I.length(), (int)M.size()); return false; }
+	for (int k = 0; k < keys.n(); k++) {
+		Ref::const_iterator it = M.find(keys.s[k]);
+		bool e = it != M.end();
+		if (I.has(keys.k[k]) != e) { err = fmt("%s.has(%s) = %d, reference %d", nm, keys.s[k].c_str(), (int)I.has(keys.k[k]), (int)e); return false; }
+		const V* p = I.find(keys.k[k]);
+		if ((p != 0) != e || (p && *p != VT<V>::val(it->second))) { err = fmt("%s.find(%s)", nm, keys.s[k].c_str()); return false; }
+		V* q = J.find(keys.k[k]);
+		if ((q != 0) != e || (q && *q != VT<V>::val(it->second))) { err = fmt("non-const %s.find(%s)", nm, keys.s[k].c_str()); return false; }
+		if (I.get(keys.k[k], VT<V>::val(7)) != VT<V>::val(e ? it->second : 7)) { err = fmt("%s.get(%s)", nm, keys.s[k].c_str()); return false; }
+		if (I[keys.k[k]] != VT<V>::val(e ? it->second : 0)) { err = fmt("const %s[%s]", nm, keys.s[k].c_str()); return false; }
+	}
+	// every entry exactly once: as many visits as entries, every visited key is in the reference with its value, no reference entry visited twice
+	std::vector<const int*>& seen = scratchPtrs();
+	for (int pass = 0; pass < 2; pass++) {
+		seen.clear();
+		int visits = 0; bool bad = false;
+		if (pass == 0) { for (typename C::Enumerator e = I.all(); e; ++e) { Ref::const_iterator it = M.find(ks(~e)); if (++visits > (int)M.size() || it == M.end() || *e != VT<V>::val(it->second)) { bad = true; break; } seen.push_back(&it->second); } }
+		else { for (auto& e : I) { Ref::const_iterator it = M.find(ks(e.key)); if (++visits > (int)M.size() || it == M.end() || e.value != VT<V>::val(it->second)) { bad = true; break; } seen.push_back(&it->second); } } // C++11 begin()/end(), FEnumerator
+		std::sort(seen.begin(), seen.end());
+		if (bad || visits != (int)M.size() || std::adjacent_find(seen.begin(), seen.end()) != seen.end()) { err = fmt("%s %s enumeration: visit %d is wrong or repeated, or entries are missing (reference has %d)", nm, pass ? "range-for" : "all()", visits, (int)M.size()); return false; }
+	}
+	return true;
+}
+
+// members collected into got (sorted here) are exactly the reference set, each once
+static bool exactly(std::vector<int>& got, const std::set<int>& M) { std::sort(got.begin(), got.end()); return got.size() == M.size() && std::equal(got.begin(), got.end(), M.begin()); }
+static bool setIs(const Set<int>& s, const std::set<int>& M) { // by all()
+	std::vector<int>& got = scratchInts(); got.clear();
+	for (Set<int>::Enumerator e = s.all(); e; ++e) { got.push_back(*e); if (got.size() > M.size()) return false; }
+	return exactly(got, M) && s.length() == (int)M.size();
+}
+static bool sameMembers(const Array<int>& arr, const std::set<int>& M) { std::vector<int>& got = scratchInts(); got.clear(); for (int i = 0; i < arr.length() && i < 4000; i++) got.push_back(arr[i]); return arr.length() == (int)M.size() && exactly(got, M); }
+
+static bool checkSet(const Set<int>& I, const std::set<int>& M, const int* keys, int nkeys, const char* nm, std::string& err) {
+	if (I.length() != (int)M.size() || I.empty() != M.empty()) { err = fmt("%s.length() = %d, reference %d", nm, I.length(), (int)M.size()); return false; }
+	for (int k = 0; k < nkeys; k++) if (I.contains(keys[k]) != (M.count(keys[k]) != 0)) { err = fmt("%s.contains(%d)", nm, keys[k]); return false; }
+	if (!setIs(I, M)) { err = fmt("%s enumeration (all()) does not visit every member exactly once (reference has %d)", nm, (int)M.size()); return false; }
+	std::vector<int>& got = scratchInts(); got.clear();
+	for (int x : I) { got.push_back(x); if (got.size() > M.size()) break; } // C++11 begin()/end() of Set
+	if (!exactly(got, M)) { err = fmt("%s range-for enumeration visited %d members, reference has %d", nm, (int)got.size(), (int)M.size()); return false; }
+	if (!sameMembers(I.array(), M)) { err = fmt("%s.array()", nm); return false; }
+	Array<int> conv = I; // operator Array<T>
+	if (!sameMembers(conv, M)) { err = fmt("(Array)%s", nm); return false; }
+	if (!sameMembers(array(I), M)) { err = fmt("array(%s)", nm); return false; }
+	return true;
+}
+
+// =============================================================== ordered Map (BFS)
+// C is the container class under test: Map<K,V> or Dic<V>
+template <class K, class V, class C>
 struct MapSys {
-	enum Kind { SET, INDEX_ASSIGN, INDEX_READ, REMOVE, CLEAR, CLONE_TO, ADD_FROM, NEWEMPTY };
+	enum Kind { SET, INDEX_ASSIGN, INDEX_READ, REMOVE, CLEAR, CLONE_TO, ADD_FROM, NEWEMPTY, REMOVE_ALIAS };
 	struct O { Kind k; int m, key, v; };
 	std::vector<O> ops;
-	Map<K, int>* im[2];
-	std::map<std::string, int>* mm[2];
-	std::vector<K> keys; std::vector<std::string> kstr;
-	MapSys() {
+	C* im[2];
+	Ref* mm[2];
+	KeyList<K> keys;
+	bool big; // one map, many keys, set/remove only (sizes above 5)
+	int W_BRANCH[5], W_AUTOINSERT, W_OVERWRITE, W_ALIAS, W_ASSIGN_OVER, W_BIG6, W_LOOP3;
+	// the first 46 op numbers are those of the original alphabet, so that older case strings keep their meaning
+	MapSys(const std::string& label, const KeyList<K>& kl, bool big_ = false) : keys(kl), big(big_) {
 		im[0] = im[1] = 0; mm[0] = mm[1] = 0;
-		for (int i = 0; i < KT<K>::nkeys(); i++) { keys.push_back(KT<K>::okey(i)); kstr.push_back(ks(KT<K>::okey(i))); }
-		for (int m = 0; m < 2; m++) {
-			for (int k = 0; k < (int)keys.size(); k++) { add(SET, m, k, 2); add(INDEX_ASSIGN, m, k, 1); add(INDEX_READ, m, k); add(REMOVE, m, k); }
-			add(CLEAR, m); add(CLONE_TO, m); add(ADD_FROM, m);
-		}
+		if (!big) {
+			for (int m = 0; m < 2; m++) {
+				for (int k = 0; k < keys.n(); k++) { add(SET, m, k, 2); add(INDEX_ASSIGN, m, k, 1); add(INDEX_READ, m, k); add(REMOVE, m, k); }
+				add(CLEAR, m); add(CLONE_TO, m); add(ADD_FROM, m);
+			}
+			for (int m = 0; m < 2; m++) for (int k = 0; k < keys.n(); k++) add(REMOVE_ALIAS, m, k);
+		} else for (int k = 0; k < keys.n(); k++) { add(SET, 0, k, 2); add(REMOVE, 0, k); add(REMOVE_ALIAS, 0, k); }
+		static const char* bn[] = { "lookup_in_empty", "lookup_found", "lookup_below_first", "lookup_above_last", "lookup_between" };
+		for (int i = 0; i < 5; i++) W_BRANCH[i] = vf::counter(("w." + label + "." + bn[i]).c_str());
+		W_OVERWRITE = vf::counter(("w." + label + ".overwrite_existing_key").c_str());
+		W_ALIAS = vf::counter(("w." + label + ".remove_key_aliasing_own_entry").c_str());
+		W_AUTOINSERT = W_ASSIGN_OVER = W_BIG6 = W_LOOP3 = -1;
+		if (!big) { W_AUTOINSERT = vf::counter(("w." + label + ".index_read_auto_inserts").c_str()); W_ASSIGN_OVER = vf::counter(("w." + label + ".clone_assigned_over_nonempty").c_str()); }
+		else { W_BIG6 = vf::counter(("w." + label + ".lookup_in_6_or_more").c_str()); W_LOOP3 = vf::counter(("w." + label + ".insert_in_middle_at_full_capacity").c_str()); }
 	}
 	void add(Kind k, int m, int key = 0, int v = 0) { O o = { k, m, key, v }; ops.push_back(o); }
 	int nops() { return (int)ops.size(); }
-	void reset() { for (int i = 0; i < 2; i++) { delete im[i]; delete mm[i]; im[i] = new Map<K, int>(); mm[i] = new std::map<std::string, int>(); } }
-	bool enabled(int op) { const O& o = ops[op]; if (o.k == CLEAR) return !mm[o.m]->empty(); if (o.k == ADD_FROM) return !mm[1 - o.m]->empty(); return true; }
+	void reset() { for (int i = 0; i < 2; i++) { delete im[i]; delete mm[i]; im[i] = new C(); mm[i] = new Ref(); } }
+	bool enabled(int op) {
+		const O& o = ops[op];
+		if (o.k == CLEAR) return !mm[o.m]->empty();
+		if (o.k == ADD_FROM) return !mm[1 - o.m]->empty();
+		if (o.k == REMOVE_ALIAS) return mm[o.m]->count(keys.s[o.key]) != 0;
+		return true;
+	}
 	const char* predict(int) { return 0; }
 	std::string opname(int op) {
 		const O& o = ops[op];
 		switch (o.k) {
-		case SET: return fmt("m%d.set(%s, %d)", o.m, kstr[o.key].c_str(), o.v);
-		case INDEX_ASSIGN: return fmt("m%d[%s] = %d", o.m, kstr[o.key].c_str(), o.v);
-		case INDEX_READ: return fmt("read m%d[%s] (non-const)", o.m, kstr[o.key].c_str());
-		case REMOVE: return fmt("m%d.remove(%s)", o.m, kstr[o.key].c_str());
+		case SET: return fmt("m%d.set(%s, %d)", o.m, keys.s[o.key].c_str(), o.v);
+		case INDEX_ASSIGN: return fmt("m%d[%s] = %d", o.m, keys.s[o.key].c_str(), o.v);
+		case INDEX_READ: return fmt("read m%d[%s] (non-const)", o.m, keys.s[o.key].c_str());
+		case REMOVE: return fmt("m%d.remove(%s)", o.m, keys.s[o.key].c_str());
+		case REMOVE_ALIAS: return fmt("m%d.remove(<the key %s stored inside m%d>)", o.m, keys.s[o.key].c_str(), o.m);
 		case CLEAR: return fmt("m%d.clear()", o.m);
 		case CLONE_TO: return fmt("m%d = m%d.clone()", 1 - o.m, o.m);
 		case ADD_FROM: return fmt("m%d.add(m%d)", o.m, 1 - o.m);
@@ -69,57 +219,43 @@ struct MapSys {
 		}
 	}
 	// classify which branch of the hand-written binary search a lookup takes (witness only)
-	void classify(int m, const std::string& key) {
-		size_t n = mm[m]->size();
-		if (n == 0) vf::add(W_MAP_BRANCH[0]);
-		else if (mm[m]->count(key)) vf::add(W_MAP_BRANCH[1]);
-		else if (key < mm[m]->begin()->first) vf::add(W_MAP_BRANCH[2]);
-		else if (key > mm[m]->rbegin()->first) vf::add(W_MAP_BRANCH[3]);
-		else vf::add(W_MAP_BRANCH[4]);
-		if (n <= 3) vf::add(W_MAP_BRANCH[5]);
+	// position of key number kn among the keys the reference holds: 0 = reference empty, 1 = present, 2 = below all, 3 = above all, 4 = strictly inside
+	int where(int m, int kn) {
+		if (mm[m]->empty()) return 0;
+		if (mm[m]->count(keys.s[kn])) return 1;
+		bool below = false, above = false, passed = false;
+		for (int r = 0; r < keys.n(); r++) { int j = keys.rank[r]; if (j == kn) { passed = true; continue; } if (mm[m]->count(keys.s[j])) { if (passed) above = true; else below = true; } }
+		return below && above ? 4 : above ? 2 : 3; // "above" = some held key ranks above the probe: the probe is below it
 	}
+	void classify(int m, int kn) { if (big && mm[m]->size() >= 6) vf::add(W_BIG6); vf::add(W_BRANCH[where(m, kn)]); }
 	bool apply(int op, std::string& err) {
 		const O& o = ops[op];
-		Map<K, int>& I = *im[o.m]; std::map<std::string, int>& M = *mm[o.m];
-		if (o.k <= REMOVE) classify(o.m, kstr[o.key]);
+		C& I = *im[o.m]; Ref& M = *mm[o.m];
+		if (o.k <= REMOVE || o.k == REMOVE_ALIAS) classify(o.m, o.key);
 		switch (o.k) {
-		case SET: if (M.count(kstr[o.key])) vf::add(W_OVERWRITE); I.set(keys[o.key], o.v); M[kstr[o.key]] = o.v; break;
-		case INDEX_ASSIGN: I[keys[o.key]] = o.v; M[kstr[o.key]] = o.v; break;
-		case INDEX_READ: { if (!M.count(kstr[o.key])) vf::add(W_AUTOINSERT); int r = I[keys[o.key]]; int e = M[kstr[o.key]]; if (r != e) { err = fmt("m[%s] = %d, reference %d", kstr[o.key].c_str(), r, e); return false; } break; }
-		case REMOVE: { bool r = I.remove(keys[o.key]); bool e = M.erase(kstr[o.key]) != 0; if (r != e) { err = "remove() return value"; return false; } break; }
+		case SET:
+			if (M.count(keys.s[o.key])) vf::add(W_OVERWRITE);
+			else if (big && I.length() >= 6 && I.length() == I.kv().cap() && where(o.m, o.key) == 4) vf::add(W_LOOP3);
+			I.set(keys.k[o.key], VT<V>::val(o.v)); M[keys.s[o.key]] = o.v; break;
+		case INDEX_ASSIGN: I[keys.k[o.key]] = VT<V>::val(o.v); M[keys.s[o.key]] = o.v; break;
+		case INDEX_READ: { if (!M.count(keys.s[o.key])) vf::add(W_AUTOINSERT); int r = VT<V>::num(I[keys.k[o.key]]); int e = M[keys.s[o.key]]; if (r != e) { err = fmt("m[%s] = value #%d, reference #%d", keys.s[o.key].c_str(), r, e); return false; } break; }
+		case REMOVE: { bool r = I.remove(keys.k[o.key]); bool e = M.erase(keys.s[o.key]) != 0; if (r != e) { err = "remove() return value"; return false; } break; }
+		case REMOVE_ALIAS: { // the argument is a reference to the key stored in the entry that is being removed
+			bool found = false, r = false;
+			for (typename C::Enumerator e = I.all(); e; ++e) if (ks(~e) == keys.s[o.key]) { found = true; vf::add(W_ALIAS); r = I.remove(~e); break; }
+			if (!found) { err = fmt("key %s not reached by enumeration", keys.s[o.key].c_str()); return false; }
+			M.erase(keys.s[o.key]);
+			if (!r) { err = "remove() return value"; return false; }
+			break; }
 		case CLEAR: I.clear(); M.clear(); break;
-		case CLONE_TO: *im[1 - o.m] = I.clone(); *mm[1 - o.m] = M; break;
-		case ADD_FROM: I.add(*im[1 - o.m]); for (std::map<std::string, int>::iterator it = mm[1 - o.m]->begin(); it != mm[1 - o.m]->end(); ++it) M[it->first] = it->second; break;
+		case CLONE_TO: if (!mm[1 - o.m]->empty()) vf::add(W_ASSIGN_OVER); *im[1 - o.m] = I.clone(); *mm[1 - o.m] = M; break;
+		case ADD_FROM: I.add(*im[1 - o.m]); for (Ref::iterator it = mm[1 - o.m]->begin(); it != mm[1 - o.m]->end(); ++it) M[it->first] = it->second; break;
 		default: break;
 		}
 		return observe(err);
 	}
 	bool observe(std::string& err) {
-		for (int m = 0; m < 2; m++) {
-			const Map<K, int>& I = *im[m]; const std::map<std::string, int>& M = *mm[m];
-			if (I.length() != (int)M.size()) { err = fmt("m%d.length() = %d, reference %d", m, I.length(), (int)M.size()); return false; }
-			for (int k = 0; k < (int)keys.size(); k++) {
-				std::map<std::string, int>::const_iterator it = M.find(kstr[k]);
-				bool e = it != M.end();
-				if (I.has(keys[k]) != e) { err = fmt("m%d.has(%s) = %d, reference %d", m, kstr[k].c_str(), (int)I.has(keys[k]), (int)e); return false; }
-				const int* p = I.find(keys[k]);
-				if ((p != 0) != e || (p && *p != it->second)) { err = fmt("m%d.find(%s)", m, kstr[k].c_str()); return false; }
-				if (I.get(keys[k], -7) != (e ? it->second : -7)) { err = fmt("m%d.get(%s)", m, kstr[k].c_str()); return false; }
-				if (I[keys[k]] != (e ? it->second : 0)) { err = fmt("const m%d[%s]", m, kstr[k].c_str()); return false; }
-			}
-			// enumeration: every entry exactly once, ascending key order (Map keys compare like the byte strings / ints)
-			std::vector<std::pair<std::string, int> > got;
-			for (typename Map<K, int>::Enumerator e = I.all(); e; ++e) got.push_back(std::make_pair(ks(~e), *e));
-			std::vector<std::pair<std::string, int> > exp;
-			if (sizeof(K) == sizeof(int)) { // numeric order for int keys
-				std::map<int, int> num; for (std::map<std::string, int>::const_iterator it = M.begin(); it != M.end(); ++it) num[atoi(it->first.c_str())] = it->second;
-				for (std::map<int, int>::iterator it = num.begin(); it != num.end(); ++it) exp.push_back(std::make_pair(fmt("%d", it->first), it->second));
-			} else for (std::map<std::string, int>::const_iterator it = M.begin(); it != M.end(); ++it) exp.push_back(*it);
-			if (got != exp) { err = fmt("m%d enumeration differs from the ascending reference (%d vs %d entries)", m, (int)got.size(), (int)exp.size()); return false; }
-			Array<K> kk = I.keys();
-			if (kk.length() != (int)exp.size()) { err = "keys() length"; return false; }
-			for (int i = 0; i < kk.length(); i++) if (ks(kk[i]) != exp[i].first) { err = "keys() order"; return false; }
-		}
+		for (int m = 0; m < (big ? 1 : 2); m++) if (!checkMap<K, V, C>(*im[m], *mm[m], keys, m ? "m1" : "m0", err)) return false;
 		bool eq = *im[0] == *im[1], meq = *mm[0] == *mm[1];
 		if (eq != meq || (*im[0] != *im[1]) == meq) { err = fmt("m0 == m1 is %d, reference %d", (int)eq, (int)meq); return false; }
 		return true;
@@ -128,61 +264,76 @@ struct MapSys {
 		std::string s;
 		for (int m = 0; m < 2; m++) {
 			s += fmt("c%d:", im[m]->kv().cap());
-			for (std::map<std::string, int>::iterator it = mm[m]->begin(); it != mm[m]->end(); ++it) s += it->first + "=" + char('0' + it->second) + ",";
+			for (Ref::iterator it = mm[m]->begin(); it != mm[m]->end(); ++it) s += it->first + "=" + char('0' + it->second) + ",";
 			s += "|";
 		}
 		return s;
 	}
 };
 
-// =============================================================== HashMap
-template <class K>
+// =============================================================== HashMap (BFS)
+// C is HashMap<K,V> or HashDic<V>
+template <class K, class V, class C>
 struct HashSys {
-	enum Kind { NEW1, NEW2, NEW4, NEWDEF, INDEX_ASSIGN, SET, INDEX_READ, REMOVE, CLEAR, CLONE_TO, FILL225 };
+	enum Kind { NEW1, NEW2, NEW4, NEWDEF, INDEX_ASSIGN, SET, INDEX_READ, REMOVE, CLEAR, CLONE_TO, FILL225, NEW0, NEW3, REMOVE_ALIAS };
 	struct O { Kind k; int m, key, v; };
 	std::vector<O> ops;
-	HashMap<K, int>* im[2];
-	std::map<std::string, int>* mm[2];
-	std::vector<K> keys; std::vector<std::string> kstr;
-	HashSys() {
+	C* im[2];
+	Ref* mm[2];
+	KeyList<K> keys;
+	int W_GROW_TINY, W_GROW_FILL, W_RM_HEAD, W_RM_MID, W_RM_TAIL, W_RM_ABSENT, W_EQ_DIFF_ORDER, W_EQ_DIFF_SIZE, W_COLLIDE, W_ALIAS, W_ASSIGN_OVER, W_NEGHASH, W_POSTFILL;
+	static bool isNew(Kind k) { return k <= NEWDEF || k == NEW0 || k == NEW3; }
+	// the first 54 op numbers are those of the original alphabet (5 keys), so that older case strings keep their meaning
+	HashSys(const std::string& label, const KeyList<K>& kl) : keys(kl) {
 		im[0] = im[1] = 0; mm[0] = mm[1] = 0;
-		for (int i = 0; i < KT<K>::nkeys(); i++) { keys.push_back(KT<K>::key(i)); kstr.push_back(ks(KT<K>::key(i))); }
 		for (int m = 0; m < 2; m++) {
 			add(NEW1, m); add(NEW2, m); add(NEW4, m); add(NEWDEF, m);
-			for (int k = 0; k < (int)keys.size(); k++) { add(INDEX_ASSIGN, m, k, 1); add(SET, m, k, 2); add(INDEX_READ, m, k); add(REMOVE, m, k); }
+			for (int k = 0; k < 5; k++) { add(INDEX_ASSIGN, m, k, 1); add(SET, m, k, 2); add(INDEX_READ, m, k); add(REMOVE, m, k); }
 			add(CLEAR, m); add(CLONE_TO, m); add(FILL225, m);
 		}
+		for (int m = 0; m < 2; m++) {
+			add(NEW0, m); add(NEW3, m);
+			for (int k = 0; k < keys.n(); k++) add(REMOVE_ALIAS, m, k);
+			for (int k = 5; k < keys.n(); k++) { add(INDEX_ASSIGN, m, k, 1); add(SET, m, k, 2); add(INDEX_READ, m, k); add(REMOVE, m, k); }
+		}
+		struct { int* c; const char* n; } w[] = { { &W_GROW_TINY, "tiny_table_regrown" }, { &W_GROW_FILL, "default_table_regrown_by_fill" }, { &W_RM_HEAD, "remove_chain_head" }, { &W_RM_MID, "remove_chain_middle" }, { &W_RM_TAIL, "remove_chain_tail" }, { &W_RM_ABSENT, "remove_absent_key" },
+			{ &W_EQ_DIFF_ORDER, "equal_contents_different_chain_order_compared" }, { &W_EQ_DIFF_SIZE, "equal_contents_different_table_size_compared" }, { &W_COLLIDE, "remove_in_chain_longer_than_1" }, { &W_ALIAS, "remove_key_aliasing_own_node" },
+			{ &W_ASSIGN_OVER, "clone_assigned_over_nonempty" }, { &W_NEGHASH, "negative_hash_key_inserted" }, { &W_POSTFILL, "probe_key_op_after_fill" } };
+		for (size_t i = 0; i < sizeof w / sizeof w[0]; i++) *w[i].c = vf::counter(("w." + label + "." + w[i].n).c_str());
 	}
 	void add(Kind k, int m, int key = 0, int v = 0) { O o = { k, m, key, v }; ops.push_back(o); }
 	int nops() { return (int)ops.size(); }
 	void reset() { for (int i = 0; i < 2; i++) { delete im[i]; delete mm[i]; im[i] = 0; mm[i] = 0; } }
 	bool enabled(int op) {
 		const O& o = ops[op];
-		if (o.k <= NEWDEF) return !im[o.m] && (o.m == 0 || im[0]);
+		if (isNew(o.k)) return !im[o.m] && (o.m == 0 || im[0]);
 		if (!im[o.m]) return false;
 		if (o.k == CLEAR) return !mm[o.m]->empty();
 		if (o.k == CLONE_TO) return true;
-		if (o.k == FILL225) return sizeof(K) == sizeof(int) && im[o.m]->a.length() == 258 && mm[o.m]->size() < 10;
+		if (o.k == FILL225) return im[o.m]->a.length() == 256 + ASL_HMAP_SKIP && mm[o.m]->size() < 10;
+		if (o.k == REMOVE_ALIAS) return mm[o.m]->count(keys.s[o.key]) != 0;
 		return mm[o.m]->size() < 240;
 	}
 	const char* predict(int) { return 0; }
 	std::string opname(int op) {
 		const O& o = ops[op];
 		switch (o.k) {
-		case NEW1: return fmt("h%d = HashMap(1)", o.m); case NEW2: return fmt("h%d = HashMap(2)", o.m); case NEW4: return fmt("h%d = HashMap(4)", o.m); case NEWDEF: return fmt("h%d = HashMap()", o.m);
-		case INDEX_ASSIGN: return fmt("h%d[%s] = %d", o.m, kstr[o.key].c_str(), o.v);
-		case SET: return fmt("h%d.set(%s, %d)", o.m, kstr[o.key].c_str(), o.v);
-		case INDEX_READ: return fmt("read h%d[%s] (non-const)", o.m, kstr[o.key].c_str());
-		case REMOVE: return fmt("h%d.remove(%s)", o.m, kstr[o.key].c_str());
+		case NEW0: return fmt("h%d = HashMap(0)", o.m); case NEW1: return fmt("h%d = HashMap(1)", o.m); case NEW2: return fmt("h%d = HashMap(2)", o.m); case NEW3: return fmt("h%d = HashMap(3)", o.m);
+		case NEW4: return fmt("h%d = HashMap(4)", o.m); case NEWDEF: return fmt("h%d = HashMap()", o.m);
+		case INDEX_ASSIGN: return fmt("h%d[%s] = %d", o.m, keys.s[o.key].c_str(), o.v);
+		case SET: return fmt("h%d.set(%s, %d)", o.m, keys.s[o.key].c_str(), o.v);
+		case INDEX_READ: return fmt("read h%d[%s] (non-const)", o.m, keys.s[o.key].c_str());
+		case REMOVE: return fmt("h%d.remove(%s)", o.m, keys.s[o.key].c_str());
+		case REMOVE_ALIAS: return fmt("h%d.remove(<the key %s stored inside h%d>)", o.m, keys.s[o.key].c_str(), o.m);
 		case CLEAR: return fmt("h%d.clear()", o.m);
 		case CLONE_TO: return fmt("h%d = h%d.clone()", 1 - o.m, o.m);
-		case FILL225: return fmt("h%d: insert keys 1000..1224", o.m);
+		case FILL225: return fmt("h%d: insert 225 more keys (%s...)", o.m, ks(KT<K>::fillkey(0)).c_str());
 		}
 		return "?";
 	}
 	void chainPos(int m, const K& key) { // witness: where in its chain does the key sit
-		HashMap<K, int>& I = *im[m];
-		typename HashMap<K, int>::KeyValN* p = I.a[I.binOf(key)];
+		C& I = *im[m];
+		typename C::KeyValN* p = I.a[I.binOf(key)];
 		int pos = 0, len = 0, at = -1;
 		for (; p; p = p->next, pos++) { if (p->key == key) at = pos; len++; }
 		if (at < 0) vf::add(W_RM_ABSENT); else if (at == 0 && len > 1) vf::add(W_RM_HEAD); else if (at == len - 1 && len > 1) vf::add(W_RM_TAIL); else if (len > 2) vf::add(W_RM_MID);
@@ -190,45 +341,40 @@ struct HashSys {
 	}
 	bool apply(int op, std::string& err) {
 		const O& o = ops[op];
-		if (o.k <= NEWDEF) {
-			im[o.m] = o.k == NEW1 ? new HashMap<K, int>(1) : o.k == NEW2 ? new HashMap<K, int>(2) : o.k == NEW4 ? new HashMap<K, int>(4) : new HashMap<K, int>();
-			mm[o.m] = new std::map<std::string, int>();
+		if (isNew(o.k)) {
+			im[o.m] = o.k == NEWDEF ? new C() : new C(o.k == NEW0 ? 0 : o.k == NEW1 ? 1 : o.k == NEW2 ? 2 : o.k == NEW3 ? 3 : 4);
+			mm[o.m] = new Ref();
 			return observe(err);
 		}
-		HashMap<K, int>& I = *im[o.m]; std::map<std::string, int>& M = *mm[o.m];
+		C& I = *im[o.m]; Ref& M = *mm[o.m];
 		int tbl = I.a.length();
+		bool inserts = (o.k == INDEX_ASSIGN || o.k == SET || o.k == INDEX_READ) && !M.count(keys.s[o.key]);
+		if (inserts && KT<K>::negHash(keys.k[o.key])) vf::add(W_NEGHASH);
+		if (o.k != FILL225 && o.k != CLONE_TO && o.k != CLEAR && M.size() > 200) vf::add(W_POSTFILL);
 		switch (o.k) {
-		case INDEX_ASSIGN: I[keys[o.key]] = o.v; M[kstr[o.key]] = o.v; break;
-		case SET: I.set(keys[o.key], o.v); M[kstr[o.key]] = o.v; break;
-		case INDEX_READ: { int r = I[keys[o.key]]; int e = M[kstr[o.key]]; if (r != e) { err = fmt("h[%s] = %d, reference %d", kstr[o.key].c_str(), r, e); return false; } break; }
-		case REMOVE: chainPos(o.m, keys[o.key]); I.remove(keys[o.key]); M.erase(kstr[o.key]); break;
+		case INDEX_ASSIGN: I[keys.k[o.key]] = VT<V>::val(o.v); M[keys.s[o.key]] = o.v; break;
+		case SET: I.set(keys.k[o.key], VT<V>::val(o.v)); M[keys.s[o.key]] = o.v; break;
+		case INDEX_READ: { int r = VT<V>::num(I[keys.k[o.key]]); int e = M[keys.s[o.key]]; if (r != e) { err = fmt("h[%s] = value #%d, reference #%d", keys.s[o.key].c_str(), r, e); return false; } break; }
+		case REMOVE: chainPos(o.m, keys.k[o.key]); I.remove(keys.k[o.key]); M.erase(keys.s[o.key]); break;
+		case REMOVE_ALIAS: { // the argument is a reference to the key stored in the node that is being deleted
+			bool found = false; int guard = 0;
+			for (typename C::Enumerator e = I.all(); e && guard < 400; ++e, ++guard) if (ks(~e) == keys.s[o.key]) { found = true; vf::add(W_ALIAS); chainPos(o.m, keys.k[o.key]); I.remove(~e); break; }
+			if (!found) { err = fmt("key %s not reached by enumeration", keys.s[o.key].c_str()); return false; }
+			M.erase(keys.s[o.key]);
+			break; }
 		case CLEAR: I.clear(); M.clear(); break;
-		case CLONE_TO: { delete im[1 - o.m]; im[1 - o.m] = new HashMap<K, int>(I.clone()); delete mm[1 - o.m]; mm[1 - o.m] = new std::map<std::string, int>(M); break; }
-		case FILL225: fill(o.m); break;
+		case CLONE_TO:
+			if (im[1 - o.m]) { if (!mm[1 - o.m]->empty()) vf::add(W_ASSIGN_OVER); *im[1 - o.m] = I.clone(); *mm[1 - o.m] = M; } // assignment releases the target's old table
+			else { im[1 - o.m] = new C(I.clone()); mm[1 - o.m] = new Ref(M); }
+			break;
+		case FILL225: for (int i = 0; i < 225; i++) { I[KT<K>::fillkey(i)] = VT<V>::val(1); M[ks(KT<K>::fillkey(i))] = 1; } break;
 		default: break;
 		}
-		if (im[o.m]->a.length() != tbl) vf::add(W_REHASH);
+		if (im[o.m]->a.length() != tbl) vf::add(o.k == FILL225 ? W_GROW_FILL : W_GROW_TINY);
 		return observe(err);
 	}
-	void fill(int m);
 	bool observe(std::string& err) {
-		for (int m = 0; m < 2; m++) {
-			if (!im[m]) continue;
-			const HashMap<K, int>& I = *im[m]; const std::map<std::string, int>& M = *mm[m];
-			if (I.length() != (int)M.size()) { err = fmt("h%d.length() = %d, reference %d", m, I.length(), (int)M.size()); return false; }
-			for (int k = 0; k < (int)keys.size(); k++) {
-				std::map<std::string, int>::const_iterator it = M.find(kstr[k]);
-				bool e = it != M.end();
-				if (I.has(keys[k]) != e) { err = fmt("h%d.has(%s) = %d, reference %d", m, kstr[k].c_str(), (int)I.has(keys[k]), (int)e); return false; }
-				const int* p = I.find(keys[k]);
-				if ((p != 0) != e || (p && *p != it->second)) { err = fmt("h%d.find(%s)", m, kstr[k].c_str()); return false; }
-				if (I.get(keys[k], -7) != (e ? it->second : -7)) { err = fmt("h%d.get(%s)", m, kstr[k].c_str()); return false; }
-				if (I[keys[k]] != (e ? it->second : 0)) { err = fmt("const h%d[%s]", m, kstr[k].c_str()); return false; }
-			}
-			std::map<std::string, int> got; int visits = 0;
-			for (typename HashMap<K, int>::Enumerator e = I.all(); e; ++e) { got[ks(~e)] = *e; if (++visits > (int)M.size() + 2) break; }
-			if (visits != (int)M.size() || got != M) { err = fmt("h%d enumeration visited %d entries (%d distinct), reference has %d", m, visits, (int)got.size(), (int)M.size()); return false; }
-		}
+		for (int m = 0; m < 2; m++) if (im[m] && !checkHash<K, V, C>(*im[m], *mm[m], keys, m ? "h1" : "h0", err)) return false;
 		if (im[0] && im[1]) {
 			bool eq = *im[0] == *im[1], meq = *mm[0] == *mm[1];
 			if (meq && mm[0]->size() >= 2) { if (im[0]->a.length() != im[1]->a.length()) vf::add(W_EQ_DIFF_SIZE); else if (canonOne(0) != canonOne(1)) vf::add(W_EQ_DIFF_ORDER); }
@@ -236,33 +382,42 @@ struct HashSys {
 		}
 		return true;
 	}
+	void chain(std::string& s, C& I, int b) {
+		typename C::KeyValN* p = I.a[b];
+		if (!p) return;
+		s += "[";
+		for (int g = 0; p && g < 300; p = p->next, g++) s += ks(p->key) + "=" + char('0' + VT<V>::num(p->value)) + ",";
+		s += "]";
+	}
 	std::string canonOne(int m) {
 		if (!im[m]) return "-";
-		HashMap<K, int>& I = *im[m];
+		C& I = *im[m];
 		std::string s = fmt("t%d:", I.a.length());
-		if (mm[m]->size() > 12) return s + fmt("n%d", (int)mm[m]->size());
-		for (int b = ASL_HMAP_SKIP; b < I.a.length(); b++) {
-			typename HashMap<K, int>::KeyValN* p = I.a[b];
-			if (!p) continue;
-			s += "[";
-			for (int g = 0; p && g < 300; p = p->next, g++) s += ks(p->key) + "=" + char('0' + p->value) + ",";
-			s += "]";
+		if (I.a.length() <= ASL_HMAP_SKIP) return s; // no bins at all (HashMap(0) on a tree without the size clamp)
+		if (mm[m]->size() > 12) { // after the fill: the chains that hold (or would hold) the probe keys, in chain order
+			s += fmt("n%d", (int)mm[m]->size());
+			std::set<int> bins;
+			for (int k = 0; k < keys.n(); k++) bins.insert(I.binOf(keys.k[k]));
+			for (std::set<int>::iterator b = bins.begin(); b != bins.end(); ++b) { s += fmt("b%d", *b); chain(s, I, *b); }
+			return s;
 		}
+		for (int b = ASL_HMAP_SKIP; b < I.a.length(); b++) chain(s, I, b);
 		return s;
 	}
 	std::string canon() { return canonOne(0) + "|" + canonOne(1); }
 };
-template <> void HashSys<int>::fill(int m) { for (int k = 1000; k < 1225; k++) { (*im[m])[k] = 1; (*mm[m])[fmt("%d", k)] = 1; } }
-template <> void HashSys<String>::fill(int) {}
 
-// =============================================================== Set
+// =============================================================== Set (BFS)
 struct SetSys {
-	enum Kind { NEW1, NEW4, NEWDEF, ADD, REMOVE, MERGE, CLONE_TO, FROM_UNION, FROM_INTER, FROM_DIFF, TO_UNION, TO_INTER, TO_DIFF };
+	enum Kind { NEW1, NEW4, NEWDEF, ADD, REMOVE, MERGE, CLONE_TO, FROM_UNION, FROM_INTER, FROM_DIFF, TO_UNION, TO_INTER, TO_DIFF, NEW0, NEW3, FROM_ARR0, REMOVE_ALIAS };
 	struct O { Kind k; int m, key; };
 	std::vector<O> ops;
 	Set<int>* is[2]; std::set<int>* ms[2];
 	int keys[5];
-	SetSys() {
+	int W_GROW, W_RM_HEAD, W_RM_MID, W_RM_TAIL, W_EQ_DIFF_ORDER, W_EQ_DIFF_SIZE, W_ALIAS, W_ASSIGN_OVER, W_FROM_ARRAY;
+	static bool isNew(Kind k) { return k <= NEWDEF || (k >= NEW0 && k <= FROM_ARR0); }
+	// the first 42 op numbers are those of the original alphabet
+	SetSys(const std::string& label) {
 		is[0] = is[1] = 0; ms[0] = ms[1] = 0;
 		for (int i = 0; i < 5; i++) keys[i] = KT<int>::key(i);
 		for (int m = 0; m < 2; m++) {
@@ -271,14 +426,23 @@ struct SetSys {
 			add(MERGE, m); add(CLONE_TO, m); add(FROM_UNION, m); add(FROM_INTER, m); add(FROM_DIFF, m);
 			add(TO_UNION, m); add(TO_INTER, m); add(TO_DIFF, m); // result stored over the RIGHT operand: the left operand lives on beside it
 		}
+		for (int m = 0; m < 2; m++) {
+			add(NEW0, m); add(NEW3, m); add(FROM_ARR0, m); // non-empty arrays and initializer lists: flat family "build"
+			for (int k = 0; k < 5; k++) add(REMOVE_ALIAS, m, k);
+		}
+		struct { int* c; const char* n; } w[] = { { &W_GROW, "table_regrown" }, { &W_RM_HEAD, "remove_chain_head" }, { &W_RM_MID, "remove_chain_middle" }, { &W_RM_TAIL, "remove_chain_tail" },
+			{ &W_EQ_DIFF_ORDER, "equal_contents_different_chain_order_compared" }, { &W_EQ_DIFF_SIZE, "equal_contents_different_table_size_compared" }, { &W_ALIAS, "remove_member_aliasing_own_node" },
+			{ &W_ASSIGN_OVER, "assigned_over_nonempty" }, { &W_FROM_ARRAY, "constructed_from_empty_array" } };
+		for (size_t i = 0; i < sizeof w / sizeof w[0]; i++) *w[i].c = vf::counter(("w." + label + "." + w[i].n).c_str());
 	}
 	void add(Kind k, int m, int key = 0) { O o = { k, m, key }; ops.push_back(o); }
 	int nops() { return (int)ops.size(); }
 	void reset() { for (int i = 0; i < 2; i++) { delete is[i]; delete ms[i]; is[i] = 0; ms[i] = 0; } }
 	bool enabled(int op) {
 		const O& o = ops[op];
-		if (o.k <= NEWDEF) return !is[o.m] && (o.m == 0 || is[0]);
+		if (isNew(o.k)) return !is[o.m] && (o.m == 0 || is[0]);
 		if (!is[o.m]) return false;
+		if (o.k == REMOVE_ALIAS) return ms[o.m]->count(keys[o.key]) != 0;
 		if (o.k >= MERGE && o.k != CLONE_TO) return is[1 - o.m] != 0;
 		return true;
 	}
@@ -286,25 +450,52 @@ struct SetSys {
 	std::string opname(int op) {
 		const O& o = ops[op];
 		switch (o.k) {
-		case NEW1: return fmt("s%d = Set(1)", o.m); case NEW4: return fmt("s%d = Set(4)", o.m); case NEWDEF: return fmt("s%d = Set()", o.m);
+		case NEW0: return fmt("s%d = Set(0)", o.m); case NEW1: return fmt("s%d = Set(1)", o.m); case NEW3: return fmt("s%d = Set(3)", o.m); case NEW4: return fmt("s%d = Set(4)", o.m); case NEWDEF: return fmt("s%d = Set()", o.m);
+		case FROM_ARR0: return fmt("s%d = Set(Array<int>())", o.m);
 		case ADD: return fmt("s%d << %d", o.m, keys[o.key]); case REMOVE: return fmt("s%d >> %d", o.m, keys[o.key]);
+		case REMOVE_ALIAS: return fmt("s%d >> <the member %d stored inside s%d>", o.m, keys[o.key], o.m);
 		case MERGE: return fmt("s%d << s%d", o.m, 1 - o.m); case CLONE_TO: return fmt("s%d = s%d.clone()", 1 - o.m, o.m);
 		case FROM_UNION: return fmt("s%d = s%d + s%d", o.m, o.m, 1 - o.m); case FROM_INTER: return fmt("s%d = s%d & s%d", o.m, o.m, 1 - o.m); case FROM_DIFF: return fmt("s%d = s%d - s%d", o.m, o.m, 1 - o.m);
 		case TO_UNION: return fmt("s%d = s%d + s%d", 1 - o.m, o.m, 1 - o.m); case TO_INTER: return fmt("s%d = s%d & s%d", 1 - o.m, o.m, 1 - o.m); case TO_DIFF: return fmt("s%d = s%d - s%d", 1 - o.m, o.m, 1 - o.m);
 		}
 		return "?";
 	}
-	static std::set<int> toStd(const Set<int>& s, int* visits) { std::set<int> r; int n = 0; for (Set<int>::Enumerator e = s.all(); e; ++e) { r.insert(*e); if (++n > 1000) break; } if (visits) *visits = n; return r; }
-	void replace(int m, const Set<int>& v, const std::set<int>& mv) { Set<int>* n = new Set<int>(v); delete is[m]; is[m] = n; *ms[m] = mv; }
+	// the result of a set operation is ASSIGNED to s<m> (operator= releases the previous table of the target)
+	void replace(int m, const Set<int>& v, const std::set<int>& mv) { if (!ms[m]->empty()) vf::add(W_ASSIGN_OVER); *is[m] = v; *ms[m] = mv; }
+	void chainPos(int m, int key) {
+		Set<int>& I = *is[m];
+		HashMap<int, int>::KeyValN* p = I.a[I.binOf(key)];
+		int pos = 0, len = 0, at = -1;
+		for (; p; p = p->next, pos++) { if (p->key == key) at = pos; len++; }
+		if (at == 0 && len > 1) vf::add(W_RM_HEAD); else if (at >= 0 && at == len - 1 && len > 1) vf::add(W_RM_TAIL); else if (at > 0 && len > 2) vf::add(W_RM_MID);
+	}
 	bool apply(int op, std::string& err) {
 		const O& o = ops[op];
-		if (o.k <= NEWDEF) { is[o.m] = o.k == NEW1 ? new Set<int>(1) : o.k == NEW4 ? new Set<int>(4) : new Set<int>(); ms[o.m] = new std::set<int>(); return observe(err); }
+		if (isNew(o.k)) {
+			ms[o.m] = new std::set<int>();
+			switch (o.k) {
+			case NEW0: is[o.m] = new Set<int>(0); break; case NEW1: is[o.m] = new Set<int>(1); break; case NEW3: is[o.m] = new Set<int>(3); break; case NEW4: is[o.m] = new Set<int>(4); break;
+			case FROM_ARR0: { Array<int> a; is[o.m] = new Set<int>(a); vf::add(W_FROM_ARRAY); break; }
+			default: is[o.m] = new Set<int>(); break;
+			}
+			return observe(err);
+		}
 		Set<int>& I = *is[o.m]; std::set<int>& M = *ms[o.m];
+		int tbl = I.a.length();
 		switch (o.k) {
 		case ADD: I << keys[o.key]; M.insert(keys[o.key]); break;
-		case REMOVE: { int x = keys[o.key]; I >> x; M.erase(keys[o.key]); break; }
+		case REMOVE: { chainPos(o.m, keys[o.key]); int x = keys[o.key]; I >> x; M.erase(keys[o.key]); break; }
+		case REMOVE_ALIAS: { // s >> *e : the argument is the member stored in the node that is being deleted
+			bool found = false; int guard = 0;
+			for (Set<int>::Enumerator e = I.all(); e && guard < 400; ++e, ++guard) if (*e == keys[o.key]) { found = true; vf::add(W_ALIAS); chainPos(o.m, keys[o.key]); I >> *e; break; }
+			if (!found) { err = fmt("member %d not reached by enumeration", keys[o.key]); return false; }
+			M.erase(keys[o.key]);
+			break; }
 		case MERGE: I << *is[1 - o.m]; M.insert(ms[1 - o.m]->begin(), ms[1 - o.m]->end()); break;
-		case CLONE_TO: { Set<int>* n = new Set<int>(); (HashMap<int, int>&)*n = I.clone(); delete is[1 - o.m]; is[1 - o.m] = n; delete ms[1 - o.m]; ms[1 - o.m] = new std::set<int>(M); break; }
+		case CLONE_TO:
+			if (is[1 - o.m]) { if (!ms[1 - o.m]->empty()) vf::add(W_ASSIGN_OVER); (HashMap<int, int>&)*is[1 - o.m] = I.clone(); *ms[1 - o.m] = M; }
+			else { Set<int>* n = new Set<int>(); (HashMap<int, int>&)*n = I.clone(); is[1 - o.m] = n; ms[1 - o.m] = new std::set<int>(M); }
+			break;
 		case FROM_UNION: { std::set<int> r = M; r.insert(ms[1 - o.m]->begin(), ms[1 - o.m]->end()); replace(o.m, I + *is[1 - o.m], r); break; }
 		case FROM_INTER: { std::set<int> r; for (std::set<int>::iterator it = M.begin(); it != M.end(); ++it) if (ms[1 - o.m]->count(*it)) r.insert(*it); replace(o.m, I & *is[1 - o.m], r); break; }
 		case FROM_DIFF: { std::set<int> r; for (std::set<int>::iterator it = M.begin(); it != M.end(); ++it) if (!ms[1 - o.m]->count(*it)) r.insert(*it); replace(o.m, I - *is[1 - o.m], r); break; }
@@ -313,20 +504,11 @@ struct SetSys {
 		case TO_DIFF: { std::set<int> r; for (std::set<int>::iterator it = M.begin(); it != M.end(); ++it) if (!ms[1 - o.m]->count(*it)) r.insert(*it); replace(1 - o.m, I - *is[1 - o.m], r); break; }
 		default: break;
 		}
+		if ((o.k == ADD || o.k == MERGE) && is[o.m]->a.length() != tbl) vf::add(W_GROW);
 		return observe(err);
 	}
 	bool observe(std::string& err) {
-		for (int m = 0; m < 2; m++) {
-			if (!is[m]) continue;
-			const Set<int>& I = *is[m]; const std::set<int>& M = *ms[m];
-			if (I.length() != (int)M.size() || I.empty() != M.empty()) { err = fmt("s%d.length() = %d, reference %d", m, I.length(), (int)M.size()); return false; }
-			for (int k = 0; k < 5; k++) if (I.contains(keys[k]) != (M.count(keys[k]) != 0)) { err = fmt("s%d.contains(%d)", m, keys[k]); return false; }
-			int visits = 0; std::set<int> got = toStd(I, &visits);
-			if (visits != (int)M.size() || got != M) { err = fmt("s%d enumeration visited %d members, reference has %d", m, visits, (int)M.size()); return false; }
-			Array<int> arr = I.array();
-			std::set<int> fromArr; for (int i = 0; i < arr.length(); i++) fromArr.insert(arr[i]);
-			if (arr.length() != (int)M.size() || fromArr != M) { err = fmt("s%d.array()", m); return false; }
-		}
+		for (int m = 0; m < 2; m++) if (is[m] && !checkSet(*is[m], *ms[m], keys, 5, m ? "s1" : "s0", err)) return false;
 		if (is[0] && is[1]) {
 			const Set<int>& A = *is[0]; const Set<int>& B = *is[1]; const std::set<int>& MA = *ms[0]; const std::set<int>& MB = *ms[1];
 			bool eq = A == B, meq = MA == MB;
@@ -337,9 +519,9 @@ struct SetSys {
 			bool all = true, any = false;
 			for (std::set<int>::const_iterator it = MA.begin(); it != MA.end(); ++it) { if (MB.count(*it)) in.insert(*it); else d.insert(*it); }
 			for (std::set<int>::const_iterator it = MB.begin(); it != MB.end(); ++it) { if (MA.count(*it)) any = true; else all = false; }
-			if (toStd(A + B, 0) != u || (A + B).length() != (int)u.size()) { err = "s0 + s1 (union)"; return false; }
-			if (toStd(A & B, 0) != in || (A & B).length() != (int)in.size()) { err = "s0 & s1 (intersection)"; return false; }
-			if (toStd(A - B, 0) != d || (A - B).length() != (int)d.size()) { err = "s0 - s1 (difference)"; return false; }
+			if (!setIs(A + B, u)) { err = "s0 + s1 (union)"; return false; }
+			if (!setIs(A & B, in)) { err = "s0 & s1 (intersection)"; return false; }
+			if (!setIs(A - B, d)) { err = "s0 - s1 (difference)"; return false; }
 			// a result is a new set: changing it must leave both operands as they were
 			for (int which = 0; which < 6; which++) {
 				const Set<int>& X = which < 3 ? A : B; const Set<int>& Y = which < 3 ? B : A;
@@ -372,43 +554,282 @@ struct SetSys {
 	}
 };
 
+// =============================================================== flat exhaustive families
+static std::vector<int> parseSeq(const std::string& s) { std::vector<int> r; size_t i = 0; while (i < s.size()) { size_t j = s.find('.', i); if (j == std::string::npos) j = s.size(); r.push_back(atoi(s.substr(i, j - i).c_str())); i = j + 1; } return r; }
+static std::string seqStr(const std::vector<int>& q) { std::string s; for (size_t i = 0; i < q.size(); i++) s += fmt(i ? ".%d" : "%d", q[i]); return s; }
+// all sequences of length 0..L over an alphabet of A symbols (distinct = without repetition)
+static void genSeqs(std::vector<std::vector<int> >& out, std::vector<int>& cur, int A, int L, bool distinct) {
+	out.push_back(cur);
+	if ((int)cur.size() == L) return;
+	for (int a = 0; a < A; a++) { if (distinct && std::find(cur.begin(), cur.end(), a) != cur.end()) continue; cur.push_back(a); genSeqs(out, cur, A, L, distinct); cur.pop_back(); }
+}
+
+struct Flat {
+	std::string label;
+	std::vector<std::string> cases; // case string = label + ":" + spec
+	std::function<bool(const std::string& spec, std::string& err)> body;
+	std::function<std::string(const std::string& spec)> describe;
+	int c_cases, c_leak;
+	Flat(const std::string& l) : label(l) { c_cases = vf::counter((l + ".cases").c_str()); c_leak = vf::counter((l + ".leak_checks").c_str()); }
+	bool one(const std::string& spec, bool report = true, bool retry = false) {
+		std::string kase = label + ":" + spec, err, sig, desc; err.reserve(1024); sig.reserve(64); desc.reserve(2048);
+		vf::cur(kase); vf::asan_clear();
+		uint64_t base = vf::heap_bytes();
+		bool ok = body(spec, err);
+		if (!ok) { sig = "diverge"; desc = err; }
+		if (vf::asan_tripped()) { sig = "asan"; desc = "ASan " + vf::asan_what() + (err.empty() ? "" : "; " + err); ok = false; }
+		if (ok && vf::have_asan()) {
+			uint64_t after = vf::heap_bytes();
+			if (after != base && !retry) return one(spec, report, true); // lazily built statics allocate once: only a delta that repeats is a leak
+			vf::add(c_leak);
+			if (after != base) { ok = false; sig = "leak"; desc = fmt("allocated bytes %+lld after dropping everything", (long long)(after - base)); }
+		}
+		vf::add(c_cases);
+		if (!ok && report) vf::violation(sig, desc + "  case: " + describe(spec), kase);
+		vf::asan_clear();
+		return ok;
+	}
+	void run() {
+		vf::parallel(cases.size(), [&](uint64_t i) { one(cases[i]); }, 64);
+	}
+};
+
+static int W_B_UNSORTED, W_B_DUP, W_B_FAMILY[16], W_SZ_ZERO, W_SZ_NONPOT, W_SZ_GROWN, W_G_T10, W_G_T66, W_G_CHAIN3, W_G_RMCLONE;
+
+// ---- build: every sequence of (key, value) pairs through every constructor / initialiser entry point
+static KeyList<int> BK_I; static KeyList<String> BK_S;
+static const char* BUILDERS[] = { "map.initlist", "map.ctor_kv_then_call", "map.reserve_then_set", "map.converting_ctor", "dic.initlist", "dic.ctor_kv_then_call", "dic.assign_initlist", "dic.from_map", "dic.from_dic_other_value_type",
+	"set.initlist", "set.from_array", "set.shift_chain", "set.from_own_array_conversion" };
+enum { NBUILD = 13 };
+template <class C, class E> static C fromList(const std::vector<E>& e) {
+	switch (e.size()) {
+	case 0: { std::initializer_list<E> il = {}; return C(il); }
+	case 1: { std::initializer_list<E> il = { e[0] }; return C(il); }
+	case 2: { std::initializer_list<E> il = { e[0], e[1] }; return C(il); }
+	case 3: { std::initializer_list<E> il = { e[0], e[1], e[2] }; return C(il); }
+	case 4: { std::initializer_list<E> il = { e[0], e[1], e[2], e[3] }; return C(il); }
+	default: { std::initializer_list<E> il = { e[0], e[1], e[2], e[3], e[4] }; return C(il); }
+	}
+}
+static bool buildCase(const std::string& spec, std::string& err) {
+	size_t sl = spec.find('/');
+	int b = atoi(spec.c_str());
+	std::vector<int> q = parseSeq(spec.substr(sl + 1));
+	int n = (int)q.size();
+	if (b < 0 || b >= NBUILD || n > 5 || (n == 0 && (b == 1 || b == 5))) { err = "bad case"; return false; }
+	for (int i = 0; i < n; i++) if (q[i] < 0 || q[i] >= BK_I.n()) { err = "bad case"; return false; }
+	vf::add(W_B_FAMILY[b]);
+	{ bool dup = false, uns = false; for (int i = 0; i < n; i++) for (int j = i + 1; j < n; j++) { if (q[i] == q[j]) dup = true; } for (int i = 0; i + 1 < n; i++) if (BK_I.k[q[i]] > BK_I.k[q[i + 1]]) uns = true; if (dup) vf::add(W_B_DUP); if (uns) vf::add(W_B_UNSORTED); }
+	Ref M; std::set<int> MS;
+	if (b < 4) { // Map<int,int>; values 1..n in list order, the latest value of a repeated key wins
+		for (int i = 0; i < n; i++) M[BK_I.s[q[i]]] = i + 1;
+		typedef Map<int, int>::KeyVal KV;
+		Map<int, int> m;
+		if (b == 0) { std::vector<KV> e; for (int i = 0; i < n; i++) e.push_back(KV(BK_I.k[q[i]], i + 1)); m = fromList<Map<int, int>, KV>(e); }
+		else if (b == 1) { Map<int, int> t(BK_I.k[q[0]], 1); for (int i = 1; i < n; i++) t(BK_I.k[q[i]], i + 1); m = t; }
+		else if (b == 2) { m.reserve(n); for (int i = 0; i < n; i++) m.set(BK_I.k[q[i]], i + 1); }
+		else { Map<long, long> src; for (int i = 0; i < n; i++) src[(long)BK_I.k[q[i]]] = i + 1; Map<int, int> t(src); m = t; }
+		return checkMap<int, int, Map<int, int> >(m, M, BK_I, BUILDERS[b], err);
+	}
+	if (b < 9) { // Dic<String> (the library's default Dic<>), heap-represented values
+		for (int i = 0; i < n; i++) M[BK_S.s[q[i]]] = i + 1;
+		typedef Map<String, String>::KeyVal KV;
+		Dic<String> d;
+		if (b == 4) { std::vector<KV> e; for (int i = 0; i < n; i++) e.push_back(KV(BK_S.k[q[i]], VT<String>::val(i + 1))); d = fromList<Dic<String>, KV>(e); }
+		else if (b == 5) { Dic<String> t(BK_S.k[q[0]], VT<String>::val(1)); for (int i = 1; i < n; i++) t(BK_S.k[q[i]], VT<String>::val(i + 1)); d = t; }
+		else if (b == 6) {
+			typedef Dic<String>::KV E;
+			d["stale"] = "x"; // the assignment must replace the previous contents
+			std::vector<E> e; for (int i = 0; i < n; i++) { E x = { *BK_S.k[q[i]], VT<String>::val(i + 1) }; e.push_back(x); }
+			switch (n) {
+			case 0: { std::initializer_list<E> il = {}; d = il; break; } case 1: { std::initializer_list<E> il = { e[0] }; d = il; break; } case 2: { std::initializer_list<E> il = { e[0], e[1] }; d = il; break; }
+			case 3: { std::initializer_list<E> il = { e[0], e[1], e[2] }; d = il; break; } case 4: { std::initializer_list<E> il = { e[0], e[1], e[2], e[3] }; d = il; break; } default: { std::initializer_list<E> il = { e[0], e[1], e[2], e[3], e[4] }; d = il; break; }
+			}
+		}
+		else if (b == 7) { Map<String, String> src; for (int i = 0; i < n; i++) src[BK_S.k[q[i]]] = VT<String>::val(i + 1); Dic<String> t(src); d = t; }
+		else { Dic<const char*> src; for (int i = 0; i < n; i++) src[BK_S.k[q[i]]] = *VT<String>::val(i + 1); Dic<String> t(src); d = t; }
+		return checkMap<String, String, Dic<String> >(d, M, BK_S, BUILDERS[b], err);
+	}
+	for (int i = 0; i < n; i++) MS.insert(BK_I.k[q[i]]);
+	Set<int> s;
+	if (b == 9) { std::vector<int> e; for (int i = 0; i < n; i++) e.push_back(BK_I.k[q[i]]); s = fromList<Set<int>, int>(e); }
+	else if (b == 10) { Array<int> a; for (int i = 0; i < n; i++) a << BK_I.k[q[i]]; Set<int> t(a); s = t; }
+	else if (b == 11) { Set<int> t; for (int i = 0; i < n; i++) t << BK_I.k[q[i]]; s = t; }
+	else { Set<int> t; for (int i = 0; i < n; i++) t << BK_I.k[q[i]]; Array<int> a = t; Set<int> u(a); s = u; if (!(s == t) || s != t) { err = "Set(Array(s)) == s"; return false; } }
+	return checkSet(s, MS, &BK_I.k[0], BK_I.n(), BUILDERS[b], err);
+}
+static std::string buildDescribe(const std::string& spec) {
+	int b = atoi(spec.c_str()); std::vector<int> q = parseSeq(spec.substr(spec.find('/') + 1));
+	std::string s = std::string(b >= 0 && b < NBUILD ? BUILDERS[b] : "?") + " with the list {";
+	for (size_t i = 0; i < q.size(); i++) s += (i ? ", " : "") + (b >= 4 && b < 9 ? "\"" + BK_S.s[q[i]] + "\"" : BK_I.s[q[i]]) + (b < 9 ? fmt(": value #%d", (int)i + 1) : std::string());
+	return s + "}";
+}
+
+// ---- sizes: every table-size argument n of HashMap(n) / HashDic(n) / Set(n)
+static KeyList<int> HK_I; static KeyList<String> HK_S;
+template <class K, class V, class C>
+static bool sizesHash(int n, const KeyList<K>& keys, const char* nm, std::string& err) {
+	C h(n); Ref M;
+	if (!checkHash<K, V, C>(h, M, keys, nm, err)) return false;
+	int t0 = h.a.length();
+	for (int k = 0; k < keys.n(); k++) { h[keys.k[k]] = VT<V>::val(k % 3); M[keys.s[k]] = k % 3; if (!checkHash<K, V, C>(h, M, keys, nm, err)) { err += fmt(" after %d insertions", k + 1); return false; } }
+	if (n <= 64) for (int i = 0; i < n + 3; i++) { h[KT<K>::fillkey(i)] = VT<V>::val(1); M[ks(KT<K>::fillkey(i))] = 1; } // enough to cross the growth threshold of the table asked for
+	if (h.a.length() != t0) vf::add(W_SZ_GROWN);
+	if (!checkHash<K, V, C>(h, M, keys, nm, err)) { err += " after the fill"; return false; }
+	C c = h.clone();
+	h.remove(keys.k[0]); h.remove(keys.k[3]); Ref M2 = M; M2.erase(keys.s[0]); M2.erase(keys.s[3]);
+	if (!checkHash<K, V, C>(h, M2, keys, nm, err)) { err += " after two removals"; return false; }
+	if (!checkHash<K, V, C>(c, M, keys, "clone", err)) return false;
+	if (c == h || !(c != h)) { err = "clone == original after removals from the original"; return false; }
+	return true;
+}
+static bool sizesCase(const std::string& spec, std::string& err) {
+	size_t sl = spec.find('/');
+	int f = atoi(spec.c_str()), n = atoi(spec.substr(sl + 1).c_str());
+	if (n == 0) vf::add(W_SZ_ZERO);
+	if (n & (n - 1)) vf::add(W_SZ_NONPOT);
+	if (f == 0) return sizesHash<int, int, HashMap<int, int> >(n, HK_I, fmt("HashMap<int,int>(%d)", n).c_str(), err);
+	if (f == 1) return sizesHash<String, String, HashDic<String> >(n, HK_S, fmt("HashDic<String>(%d)", n).c_str(), err);
+	Set<int> s(n); std::set<int> M;
+	std::string nm = fmt("Set<int>(%d)", n);
+	if (!checkSet(s, M, &HK_I.k[0], HK_I.n(), nm.c_str(), err)) return false;
+	int t0 = s.a.length();
+	for (int k = 0; k < HK_I.n(); k++) { s << HK_I.k[k]; M.insert(HK_I.k[k]); if (!checkSet(s, M, &HK_I.k[0], HK_I.n(), nm.c_str(), err)) { err += fmt(" after %d insertions", k + 1); return false; } }
+	if (n <= 64) for (int i = 0; i < n + 3; i++) { s << 1000 + i; M.insert(1000 + i); }
+	if (s.a.length() != t0) vf::add(W_SZ_GROWN);
+	if (!checkSet(s, M, &HK_I.k[0], HK_I.n(), nm.c_str(), err)) { err += " after the fill"; return false; }
+	int x = HK_I.k[0]; s >> x; M.erase(x);
+	return checkSet(s, M, &HK_I.k[0], HK_I.n(), nm.c_str(), err);
+}
+static std::string sizesDescribe(const std::string& spec) {
+	int f = atoi(spec.c_str()), n = atoi(spec.substr(spec.find('/') + 1).c_str());
+	return fmt("%s(%d): empty lookups, insert the probe keys one by one, fill across the growth threshold, clone, remove", f == 0 ? "HashMap<int,int>" : f == 1 ? "HashDic<String>" : "Set<int>", n);
+}
+
+// ---- grow: every insertion order of keys that share buckets, from HashMap(1) through 1 -> 8 -> 64 bins
+// bins of 8: {1,9,65,73,-63,17,193}->1, {2,10}->2 ; bins of 64: {1,65,-63,193}->1, {9,73}->9, 17, 2, 10
+static KeyList<int> GK;
+static bool growCase(const std::string& spec, std::string& err) {
+	std::vector<int> q = parseSeq(spec);
+	int n = (int)q.size(), N = GK.n();
+	HashMap<int, int> h(1); Ref M;
+	for (int i = 0; i < n; i++) { if (q[i] < 0 || q[i] >= N) { err = "bad case"; return false; } h[GK.k[q[i]]] = 1 + i % 3; M[GK.s[q[i]]] = 1 + i % 3; }
+	if (h.a.length() == 8 + ASL_HMAP_SKIP) vf::add(W_G_T10);
+	if (!checkHash<int, int, HashMap<int, int> >(h, M, GK, "h", err)) return false;
+	if (n < 8) return true;
+	// with 8 entries in 8 bins the next non-const lookup grows the table a second time
+	int r = h[GK.k[q[0]]];
+	if (r != 1) { err = fmt("h[%s] = %d after the second growth, reference 1", GK.s[q[0]].c_str(), r); return false; }
+	if (h.a.length() == 64 + ASL_HMAP_SKIP) vf::add(W_G_T66);
+	{ HashMap<int, int>::KeyValN* p = h.a[h.binOf(1)]; int len = 0; for (; p && len < 99; p = p->next) len++; if (len >= 3) vf::add(W_G_CHAIN3); }
+	if (!checkHash<int, int, HashMap<int, int> >(h, M, GK, "h (after the second growth)", err)) return false;
+	if (n < N) return true;
+	for (int j = 0; j < N; j++) { // every single removal from an independent copy of the grown table
+		HashMap<int, int> c = h.clone();
+		c.remove(GK.k[j]);
+		Ref M2 = M; M2.erase(GK.s[j]);
+		vf::add(W_G_RMCLONE);
+		if (!checkHash<int, int, HashMap<int, int> >(c, M2, GK, "clone", err)) { err += fmt(" after clone.remove(%s)", GK.s[j].c_str()); return false; }
+		if (c == h) { err = "clone == h after a removal from the clone"; return false; }
+		c[GK.k[j]] = M[GK.s[j]]; // same contents again, other chain order
+		if (!(c == h) || c != h) { err = fmt("clone != h after removing and re-inserting %s", GK.s[j].c_str()); return false; }
+	}
+	return checkHash<int, int, HashMap<int, int> >(h, M, GK, "h (after work on its clones)", err);
+}
+static std::string growDescribe(const std::string& spec) {
+	std::vector<int> q = parseSeq(spec); std::string s = "HashMap<int,int> h(1); insert in this order:";
+	for (size_t i = 0; i < q.size(); i++) s += " " + (q[i] >= 0 && q[i] < GK.n() ? GK.s[q[i]] : std::string("?"));
+	return s + (q.size() >= 8 ? " ; lookup ; clone and remove each key" : "");
+}
+
+// =============================================================== driver
 static uint64_t totS, totT, totTr;
 template <class Sys>
 static void runBfs(Sys& sys, const std::string& label, int depth) {
+	double t0 = vf::now_s();
 	vf::Bfs<Sys> b(sys, label);
 	vf::BfsResult r = b.run(depth, 0);
 	totS += r.states; totT += r.transitions; totTr += r.traces;
 	std::string pd;
 	for (size_t i = 0; i < r.per_depth.size(); i++) pd += fmt(i ? ",%llu" : "%llu", (unsigned long long)r.per_depth[i]);
-	vf::setinfo(label, fmt("{\"depth_completed\": %d, \"states\": %llu, \"transitions\": %llu, \"fixed_point\": %s, \"new_states_per_depth\": [%s], \"op_alphabet\": %d}", r.depth_done, (unsigned long long)r.states, (unsigned long long)r.transitions, r.fixed_point ? "true" : "false", pd.c_str(), sys.nops()));
+	vf::setinfo(label, fmt("{\"depth_completed\": %d, \"states\": %llu, \"transitions\": %llu, \"fixed_point\": %s, \"new_states_per_depth\": [%s], \"op_alphabet\": %d, \"wall_s\": %.1f}", r.depth_done, (unsigned long long)r.states, (unsigned long long)r.transitions, r.fixed_point ? "true" : "false", pd.c_str(), sys.nops(), vf::now_s() - t0));
+}
+static uint64_t totFlat;
+static void runFlat(Flat& f) {
+	double t0 = vf::now_s();
+	f.run();
+	totFlat += vf::get(f.c_cases);
+	vf::setinfo(f.label, fmt("{\"cases\": %llu, \"leak_checks\": %llu, \"wall_s\": %.1f}", (unsigned long long)f.cases.size(), (unsigned long long)vf::get(f.c_leak), vf::now_s() - t0));
+	vf::sample(f.label + ": " + f.describe(f.cases.back()));
 }
 
 int main(int argc, char** argv) {
 	vf::init(argc, argv, "C02", "c02_maps");
-	int cS = vf::counter("states"), cT = vf::counter("transitions"), cTr = vf::counter("traces");
-	W_REHASH = vf::counter("w.hash_table_regrown"); W_RM_HEAD = vf::counter("w.remove_chain_head"); W_RM_MID = vf::counter("w.remove_chain_middle"); W_RM_TAIL = vf::counter("w.remove_chain_tail"); W_RM_ABSENT = vf::counter("w.remove_absent_key");
-	W_EQ_DIFF_ORDER = vf::counter("w.equal_contents_different_chain_order_compared"); W_EQ_DIFF_SIZE = vf::counter("w.equal_contents_different_table_size_compared"); W_COLLIDE = vf::counter("w.remove_in_chain_longer_than_1");
-	static const char* bn[] = { "w.map_lookup_in_empty", "w.map_lookup_found", "w.map_lookup_below_first", "w.map_lookup_above_last", "w.map_lookup_between", "w.map_lookup_size_le_3" };
-	for (int i = 0; i < 6; i++) W_MAP_BRANCH[i] = vf::counter(bn[i]);
-	W_AUTOINSERT = vf::counter("w.index_read_auto_inserts"); W_OVERWRITE = vf::counter("w.overwrite_existing_key");
+	int cS = vf::counter("states"), cT = vf::counter("transitions"), cTr = vf::counter("traces"), cEv = vf::counter("evaluations");
 	bool T = vf::opt.thorough();
-	MapSys<int> mi; MapSys<String> md; HashSys<int> hi; HashSys<String> hd; SetSys ss;
+	VT<String>::init();
+	KeyList<int> ki_o, ki_h, ki_9; KeyList<String> ks_o, ks_h;
+	for (int i = 0; i < KT<int>::nokeys(); i++) ki_o.add(KT<int>::okey(i));
+	for (int i = 0; i < KT<int>::nkeys(); i++) ki_h.add(KT<int>::key(i));
+	for (int i = 0; i < KT<String>::nokeys(); i++) ks_o.add(KT<String>::okey(i));
+	for (int i = 0; i < KT<String>::nkeys(); i++) ks_h.add(KT<String>::key(i));
+	{ static const int k9[] = { INT_MIN, -3, -2, -1, 0, 1, 2, 3, INT_MAX }; for (int i = 0; i < 9; i++) ki_9.add(k9[i]); }
+	HK_I = ki_h; HK_S = ks_h;
+	{ static const int bk[] = { INT_MAX, -1, INT_MIN, 1, 0 }; static const char* bs[] = { "\xe9t\xe9", "b", "common-prefix-0123456-b", "common-prefix-0123456", "" }; for (int i = 0; i < (T ? 5 : 4); i++) { BK_I.add(bk[i]); BK_S.add(bs[i]); } }
+	{ static const int gk[] = { 1, 9, 65, 73, -63, 17, 2, 10, 193 }; for (int i = 0; i < (T ? 9 : 8); i++) GK.add(gk[i]); }
+
+	MapSys<int, int, Map<int, int> > mi("map<int>", ki_o);
+	MapSys<String, String, Dic<String> > md("dic", ks_o);
+	MapSys<int, int, Map<int, int> > m9("map9", ki_9, true);
+	HashSys<int, int, HashMap<int, int> > hi("hashmap<int>", ki_h);
+	HashSys<String, String, HashDic<String> > hd("hashdic", ks_h);
+	SetSys ss("set");
+
+	Flat fb("build"), fs("sizes"), fg("grow");
+	fb.body = buildCase; fb.describe = buildDescribe; fs.body = sizesCase; fs.describe = sizesDescribe; fg.body = growCase; fg.describe = growDescribe;
+	W_B_UNSORTED = vf::counter("w.build.list_not_in_key_order"); W_B_DUP = vf::counter("w.build.list_with_repeated_key");
+	for (int b = 0; b < NBUILD; b++) W_B_FAMILY[b] = vf::counter((std::string("w.build.") + BUILDERS[b]).c_str());
+	W_SZ_ZERO = vf::counter("w.sizes.table_size_0"); W_SZ_NONPOT = vf::counter("w.sizes.table_size_not_power_of_2"); W_SZ_GROWN = vf::counter("w.sizes.table_regrown");
+	W_G_T10 = vf::counter("w.grow.table_of_8_bins"); W_G_T66 = vf::counter("w.grow.second_growth_to_64_bins"); W_G_CHAIN3 = vf::counter("w.grow.chain_of_3_survives_second_growth"); W_G_RMCLONE = vf::counter("w.grow.remove_from_clone_of_grown_table");
+	{
+		std::vector<std::vector<int> > seqs; std::vector<int> cur;
+		genSeqs(seqs, cur, BK_I.n(), T ? 5 : 4, false);
+		for (int b = 0; b < NBUILD; b++) for (size_t i = 0; i < seqs.size(); i++) { if ((b == 1 || b == 5) && seqs[i].empty()) continue; fb.cases.push_back(fmt("%d/", b) + seqStr(seqs[i])); }
+		for (int f = 0; f < 3; f++) for (int n = 0; n <= (T ? 1030 : 260); n++) fs.cases.push_back(fmt("%d/%d", f, n));
+		seqs.clear();
+		genSeqs(seqs, cur, GK.n(), GK.n(), true);
+		for (size_t i = 0; i < seqs.size(); i++) fg.cases.push_back(seqStr(seqs[i]));
+	}
+
 	if (vf::opt.replay) {
 		const std::string& k = vf::opt.kase;
 		vf::parallel(1, [&](uint64_t) {
-			if (k.compare(0, 8, "map<int>") == 0) vf::Bfs<MapSys<int> >(mi, "map<int>").replay(k);
-			else if (k.compare(0, 3, "dic") == 0) vf::Bfs<MapSys<String> >(md, "dic").replay(k);
-			else if (k.compare(0, 12, "hashmap<int>") == 0) vf::Bfs<HashSys<int> >(hi, "hashmap<int>").replay(k);
-			else if (k.compare(0, 7, "hashdic") == 0) vf::Bfs<HashSys<String> >(hd, "hashdic").replay(k);
-			else if (k.compare(0, 3, "set") == 0) vf::Bfs<SetSys>(ss, "set").replay(k);
+			if (k.compare(0, 8, "map<int>") == 0) vf::Bfs<MapSys<int, int, Map<int, int> > >(mi, "map<int>").replay(k);
+			else if (k.compare(0, 5, "map9:") == 0) vf::Bfs<MapSys<int, int, Map<int, int> > >(m9, "map9").replay(k);
+			else if (k.compare(0, 3, "dic") == 0) vf::Bfs<MapSys<String, String, Dic<String> > >(md, "dic").replay(k);
+			else if (k.compare(0, 12, "hashmap<int>") == 0) vf::Bfs<HashSys<int, int, HashMap<int, int> > >(hi, "hashmap<int>").replay(k);
+			else if (k.compare(0, 7, "hashdic") == 0) vf::Bfs<HashSys<String, String, HashDic<String> > >(hd, "hashdic").replay(k);
+			else if (k.compare(0, 4, "set:") == 0) vf::Bfs<SetSys>(ss, "set").replay(k);
+			else if (k.compare(0, 6, "build:") == 0) { fb.one(k.substr(6), false); fb.one(k.substr(6)); }
+			else if (k.compare(0, 6, "sizes:") == 0) { fs.one(k.substr(6), false); fs.one(k.substr(6)); }
+			else if (k.compare(0, 5, "grow:") == 0) { fg.one(k.substr(5), false); fg.one(k.substr(5)); }
 		});
 		return vf::finish();
 	}
-	runBfs(mi, "map<int>", T ? 6 : 5);
-	runBfs(md, "dic", T ? 5 : 4);
-	runBfs(hi, "hashmap<int>", T ? 7 : 5);
-	runBfs(hd, "hashdic", T ? 6 : 4);
-	runBfs(ss, "set", T ? 7 : 6);
-	vf::add(cS, totS); vf::add(cT, totT); vf::add(cTr, totTr);
+	// debugging aid: C02_ONLY=label,label runs only those families (the run is then marked non-exhaustive)
+	const char* only = getenv("C02_ONLY");
+	std::string sel = only && *only ? std::string(",") + only + "," : std::string();
+	if (!sel.empty()) vf::cap_hit("partial run: C02_ONLY=" + std::string(only));
+	#define WANT(l) (sel.empty() || sel.find("," l ",") != std::string::npos)
+	if (WANT("sizes")) runFlat(fs);
+	if (WANT("build")) runFlat(fb);
+	if (WANT("grow")) runFlat(fg);
+	if (WANT("map9")) runBfs(m9, "map9", 40);
+	if (WANT("map<int>")) runBfs(mi, "map<int>", T ? 6 : 5);
+	if (WANT("dic")) runBfs(md, "dic", T ? 5 : 4);
+	if (WANT("hashmap<int>")) runBfs(hi, "hashmap<int>", T ? 7 : 5);
+	if (WANT("hashdic")) runBfs(hd, "hashdic", T ? 6 : 5);
+	if (WANT("set")) runBfs(ss, "set", T ? 7 : 6);
+	vf::add(cS, totS); vf::add(cT, totT); vf::add(cTr, totTr); vf::add(cEv, totTr + totFlat);
 	return vf::finish();
 }
